@@ -137,6 +137,21 @@ struct AnyEngine
         W.check_all_canaries();
     }
 
+    // "row alignment holds for every row start" (after construction with an alignment and after recreate)
+    void check_row_alignment(Any const& a, size_t align, char const* who)
+    {
+        if (align == 0) return;
+        ++out.align_checked;
+        std::vector<Extent> ex; int arena = 0;
+        boost::variant2::visit(Extents{&ex, &arena}, a);
+        for (auto const& e : ex)
+            if (e.lo % align != 0 || e.bit != 0)
+            {
+                viol("model:row-alignment", std::string(who) + ": a row start is not aligned to " + std::to_string(align));
+                return;
+            }
+    }
+
     Any* make(Json const& op)
     {
         std::ptrdiff_t w = (std::ptrdiff_t)op.num("w"), h = (std::ptrdiff_t)op.num("h");
@@ -145,7 +160,7 @@ struct AnyEngine
         switch (op.num("type") % 3)
         {
         case 0: return new Any(I0(w, h, al, a));
-        case 1: return new Any(I1(w, h, al & ~(size_t)1, a));
+        case 1: return new Any(I1(w, h, al, a));
         default: return new Any(I2(w, h, al, a));
         }
     }
@@ -159,7 +174,12 @@ struct AnyEngine
             int t = (int)(op.num("slot") % NS);
             if (mod[t].alive) kill(t);
             if (k == "ctor_default") { img[t] = new Any(); adopt(mod[t], *img[t]); }
-            else { img[t] = make(op); normalise(mod[t], *img[t], 0xA11u + (uint64_t)cur_idx); }
+            else
+            {
+                img[t] = make(op);
+                check_row_alignment(*img[t], (size_t)op.num("align"), "any_image constructor");
+                normalise(mod[t], *img[t], 0xA11u + (uint64_t)cur_idx);
+            }
         }
         else if (k == "copy_ctor" || k == "move_ctor")
         {
@@ -203,10 +223,10 @@ struct AnyEngine
             std::ptrdiff_t w = (std::ptrdiff_t)op.num("w"), h = (std::ptrdiff_t)op.num("h");
             int type = mod[t].type;
             unsigned al = (unsigned)op.num("align");
-            if (type == 1) al &= ~1u;
             img[t]->recreate(w, h, al);
             if ((int)img[t]->index() != type) viol("model:type", "recreate changed the held alternative");
             if (img[t]->width() != w || img[t]->height() != h) viol("model:dims", "any_image::recreate left other dimensions than requested");
+            check_row_alignment(*img[t], al, "any_image::recreate");
             normalise(mod[t], *img[t], 0xA15u + (uint64_t)cur_idx);
         }
         else if (k == "swap")
